@@ -2,6 +2,7 @@ package main
 
 import (
 	"fmt"
+	"strings"
 
 	"github.com/gardenbed/emerge/verif/ev"
 	"github.com/gardenbed/emerge/verif/ref/ebnfref"
@@ -89,6 +90,43 @@ func families(run func(sp *ebnfref.Spec, family string)) {
 					mk("synthesised_shapes", fmt.Sprintf("grammar g\n%s%sstart = %s ;\n", helpers, rule, wrap(b1, wrap(b2, name))))
 				}
 			}
+		}
+	}
+	// (ii'') a rule one of whose alternatives is the string literal spelled like the rule itself (`null = "null" | "nil"`):
+	// a terminal and a non-terminal with one spelling are different symbols
+	for _, name := range []string{"null", "a", "star", "gen", "x1"} {
+		lit := `"` + name + `"`
+		for _, rule := range []string{
+			fmt.Sprintf("%s = %s | \"b\" ;", name, lit),
+			fmt.Sprintf("%s = \"b\" | %s ;", name, lit),
+			fmt.Sprintf("%s = %s | %s %s ;", name, lit, name, lit),
+			fmt.Sprintf("%s = %s | TK | ;", name, lit),
+			fmt.Sprintf("%s = ( %s ) | [ %s \"b\" ] \"b\" ;", name, lit, lit),
+		} {
+			for _, use := range []string{"%s", "%s \"a\"", "[ %s ] \"a\"", "{ %s }", "%s %s", "%s | \"a\""} {
+				u := strings.ReplaceAll(use, "%s", name)
+				mk("literal_spelled_like_its_rule", fmt.Sprintf("grammar g\n%sstart = %s ;\n%s\n", helpers, u, rule))
+				mk("literal_spelled_like_its_rule", fmt.Sprintf("grammar g\n%s%s\nstart = %s ;\n", helpers, rule, u))
+			}
+		}
+	}
+	// (ii-c) a rule with an alternative that is just the rule itself (a cycle that adds no sentence), in every position
+	// among other alternatives, for start and for an ordinary rule, in one piece and in two
+	for _, name := range []string{"start", "r"} {
+		use := ""
+		if name != "start" {
+			use = "start = r \"c\" | r ;\n"
+		}
+		for _, alts := range [][]string{
+			{name, `"a"`, `"b"`}, {`"a"`, name, `"b"`}, {`"a"`, `"b"`, name}, {`"a"`, name, `"b" ` + name}, {name, `"a" ` + name + ` "b"`, `x`},
+			{`"a"`, name, ``}, {`[ "a" ]`, name, `{ "b" }`}, {`"a"`, `( ` + name + ` )`, `"b"`},
+		} {
+			mk("bare_self_reference", fmt.Sprintf("grammar g\n%s%s%s = %s ;\n", helpers, use, name, strings.TrimRight(strings.Join(alts, " | "), " ")))
+			second := alts[2] + ` | "c"`
+			if alts[2] == "" {
+				second = `"c" |`
+			}
+			mk("bare_self_reference", fmt.Sprintf("grammar g\n%s%s%s = %s ;\n%s = %s ;\n", helpers, use, name, strings.Join(alts[:2], " | "), name, second))
 		}
 	}
 	// (iii) single-character string terminals against non-terminals of the same spelled name
